@@ -158,6 +158,36 @@ type FuncContract struct {
 	Pure      bool
 	Cases     []*Clause // proof by cases: the function is verified once per truth assignment
 	LockRequires []*Clause // monitors: what the caller guarantees about the guarded state when the lock is taken
+	Consumes []string // owned parameters whose structure is taken over by the callee
+	Releases []string // owned parameters whose root node (only) is taken over by the callee
+	CallGhost map[int][]GhostArg // ghost arguments for the call with the given ordinal
+}
+
+type GhostArg struct {
+	Name string
+	E    Expr
+	Text string
+}
+
+// OwnedMode says what the contract does with the owned parameter name: "" (borrowed, unchanged),
+// "assigns" (modified in place), "consumes", "releases".
+func (f *FuncContract) OwnedMode(name string) string {
+	for _, n := range f.Consumes {
+		if n == name {
+			return "consumes"
+		}
+	}
+	for _, n := range f.Releases {
+		if n == name {
+			return "releases"
+		}
+	}
+	for _, a := range f.Assigns {
+		if id, ok := a.(*Ident); ok && id.Name == name {
+			return "assigns"
+		}
+	}
+	return ""
 }
 
 // Key is the name used to bind the contract to an ssa function: Name, (T).Name or (*T).Name.
@@ -181,6 +211,7 @@ type SpecFunc struct {
 	Result *TypeExpr // nil for pred (bool)
 	Body   Expr
 	Pred   bool
+	Uninterpreted bool
 	Text   string
 }
 
@@ -224,6 +255,8 @@ type File struct {
 	TypeInvs  []*TypeInv
 	Monitors  []*Monitor
 	Dirs      []*Directive
+	Axioms    []*Clause
+	Owned     []string // struct types whose pointers own recursive structures (memory model M2)
 }
 
 // IsBasicType reports whether name is a predeclared type usable as a conversion.
